@@ -543,6 +543,61 @@ func genNamed(t *rapid.T) argItem {
 	return it
 }
 
+// genArgsModeCase: the binding flags together with an input-mode cluster in a
+// drawn flag order, and a main input that is valid in that mode.
+func genArgsModeCase(t *rapid.T) argsCase {
+	c := genArgsCase(t)
+	c.Lead = []string{pick(t, "out", []string{"-c", "--compact-output"})}
+	// at least two bindings from files
+	for i, n := 0, rapid.IntRange(1, 2).Draw(t, "nfilebind"); i < n; i++ {
+		it := argItem{Kind: pick(t, "fkind", []string{"slurpfile", "slurpfile", "rawfile"}), Name: pick(t, "fname", []string{"sf", "rf", "a", "x1"})}
+		if it.Kind == "slurpfile" {
+			_, ts := genDocs(t, 1, 3)
+			it.Text = joinDocs(t, ts)
+		} else {
+			it.Text = pick(t, "rawtext", []string{"é日本\n", "line1\nline2", "a\r\nb\r\n", "\U0001F600", "x\n\n", "[1,2] {\"k\":1}\n", ""}) + pick(t, "rawend", []string{"", "\n"})
+		}
+		at := rapid.IntRange(0, len(c.Items)).Draw(t, "bindAt")
+		for j, x := range c.Items { // not behind "--"
+			if x.Kind == "ddash" && at > j {
+				at = j
+			}
+		}
+		c.Items = append(c.Items[:at], append([]argItem{it}, c.Items[at:]...)...)
+	}
+	c.Mode = pick(t, "mode", argModeNames)
+	switch c.Mode {
+	case "raw", "rawslurp", "nullraw":
+		c.Stdin = genRawText(t, false)
+		if c.Stdin == "" && c.Mode == "raw" {
+			c.Stdin = "only\n"
+		}
+	case "yaml":
+		for i, n := 0, rapid.IntRange(1, 3).Draw(t, "nyaml"); i < n; i++ {
+			d := pick(t, "ydoc", yamlDocPool)
+			if i > 0 {
+				c.Stdin += "---\n"
+			}
+			c.Stdin += d.Text
+			c.MainWant = append(c.MainWant, d.Want)
+		}
+	default:
+		_, ts := genDocs(t, 1, 3)
+		c.Stdin = joinDocs(t, ts)
+	}
+	for _, tok := range pick(t, "spelling", argModes[c.Mode]) {
+		limit := len(c.Items)
+		for j, x := range c.Items {
+			if x.Kind == "ddash" {
+				limit = j
+			}
+		}
+		at := rapid.IntRange(0, limit).Draw(t, "flagAt")
+		c.Items = append(c.Items[:at], append([]argItem{{Kind: "flag", Text: tok}}, c.Items[at:]...)...)
+	}
+	return c
+}
+
 func genArgsCase(t *rapid.T) argsCase {
 	c := argsCase{Lead: pick(t, "lead", [][]string{{"-n", "-c"}, {"-nc"}, {"-cn"}, {"-c", "-n"}, {"--null-input", "--compact-output"}})}
 	jsonMode, switched := false, false
